@@ -258,6 +258,11 @@ def typed_case(item):
                 # resource paths with directories: the same file name under different directories must stay different files
                 import dataflows as DF_
                 pre = [DF_.update_resource(x[0], path='y20%02d/sales.csv' % i) for i, x in enumerate(resources)]
+            if cfg.get('dialect_in'):
+                # the resource arrives with a dialect of its own (that of a header-less, backslash-escaped, semicolon-separated file it was
+                # once loaded from): the written descriptor has to describe the WRITTEN file, in every property
+                import dataflows as DF_
+                pre = pre + [DF_.update_resource(None, dialect=dict(header=False, escapeChar='\\', delimiter=';', commentChar='#'))]
             if cfg.get('enc'):
                 # the resource arrives with an encoding of its own (that of the file it was once loaded from): the written
                 # descriptor has to record the encoding of the WRITTEN file
@@ -445,7 +450,7 @@ def run():
     for cfg in cfgs:
         for _ in range(per):
             items.append(dict(cfg=dict(cfg, missing=r.choice([None, None] + mvs), dirs=r.random() < 0.3,
-                                       keyorder=r.random() < 0.35, second=r.random() < 0.3, enc=r.choice([None, None, 'windows-1252', 'utf-16'])), seed=r.randrange(10 ** 9), tier=t))
+                                       keyorder=r.random() < 0.35, second=r.random() < 0.3, dialect_in=r.random() < 0.25, enc=r.choice([None, None, 'windows-1252', 'utf-16'])), seed=r.randrange(10 ** 9), tier=t))
     tres = pmap(typed_case, items, chunksize=4)
     errs = harness_errors(tres)
     if errs:
